@@ -5,6 +5,7 @@ package main
 import (
 	"bytes"
 	"strconv"
+	"strings"
 
 	"github.com/stackus/goht"
 	"github.com/stackus/goht/internal/proxy"
@@ -159,5 +160,39 @@ func init() {
 	}
 	handlers["detailpkg"] = func(args []string) string {
 		return "ok " + tohex(proxy.VerifDetailPackage(unhex(args[0])))
+	}
+}
+
+func init() {
+	// pool <steps>: the buffer-pool protocol of generated templates driven step by step for several logical renders
+	handlers["pool"] = func(args []string) string {
+		bufs := map[string]goht.Buffer{}
+		var written []string
+		for _, st := range strings.Split(args[0], ",") {
+			body := st[1:]
+			parts := strings.Split(body, ":")
+			r := parts[0]
+			switch st[0] {
+			case 'G':
+				if _, ok := bufs[r]; !ok {
+					bufs[r] = goht.GetBuffer()
+				}
+			case 'W':
+				if b, ok := bufs[r]; ok {
+					b.WriteString(unhex(parts[1]))
+				}
+			case 'F':
+				if b, ok := bufs[r]; ok {
+					if parts[1] == "1" {
+						out := b.Bytes()
+						defer func() {}()
+						written = append(written, r+"="+tohex(string(out)))
+					}
+					goht.ReleaseBuffer(b)
+					delete(bufs, r)
+				}
+			}
+		}
+		return strings.Join(written, ";")
 	}
 }
